@@ -199,6 +199,29 @@ func runCheck(P *Prog, prop, tier string, seed int, writeBase bool, t0 time.Time
 		return 2
 	}
 	vs := solveAll(jobs, timeout, 16)
+	// second chance for claimed obligations that came back undecided (a loaded machine must not cause an alarm):
+	// re-run them with a three times larger budget and little parallelism
+	if base != nil && !writeBase {
+		inNames := map[string]bool{}
+		for _, n := range base.Names {
+			inNames[n] = true
+		}
+		var retry []job
+		var idx []int
+		for i, v := range vs {
+			if v.Status == "undecided" && inNames[v.Obl.Name] {
+				retry = append(retry, jobs[i])
+				idx = append(idx, i)
+			}
+		}
+		if len(retry) > 0 && len(retry) <= 40 {
+			rs := solveAll(retry, timeout*3, 4)
+			for k, r := range rs {
+				r.Time += vs[idx[k]].Time
+				vs[idx[k]] = r
+			}
+		}
+	}
 	if tier == "thorough" {
 		if msg := crossCheck(jobs, vs); msg != "" {
 			fmt.Println("ENGINE-ERROR: solver disagreement:", msg)
@@ -291,6 +314,11 @@ func runCheck(P *Prog, prop, tier string, seed int, writeBase bool, t0 time.Time
 			data, _ := json.MarshalIndent(map[string]interface{}{"property": prop, "obligation_group": g, "status": "missing", "reason": reason}, "", " ")
 			os.WriteFile(path, data, 0o644)
 			violations = append(violations, fmt.Sprintf("VIOLATION property=%s replay=%s no-failing-input-found\n  proved obligation group %s is gone: %s", prop, path, g, reason))
+		}
+	}
+	for _, v := range vs {
+		if v.Time > 8 && v.Status == "discharged" {
+			fmt.Printf("SLOW: %.1fs %s (%s)\n", v.Time, v.Obl.Name, v.Solver)
 		}
 	}
 	for _, l := range knownSeen {
